@@ -66,7 +66,13 @@
       (`whileFuel`, `forRangeExit`, `forEachExit`); a labelled jump out of an inner loop is the inner loop's
       `LoopExit.ret` carrying the outer loop's `LoopExit`;
       a `const` nested in a block is a `let`; `Option::expect(msg)` is `unwrap`; `let PAT = e else { … }` is a `match`;
-      `std::net::SocketAddr` is the inductive `SocketAddr` whose `==` is structural; `Box<T>` is `T`;
+      `std::net::SocketAddr` is the inductive `SocketAddr` whose `==` is structural; a `SocketAddrV4` / `SocketAddrV6`
+      (bound by the patterns `SocketAddr::V4(a)` / `V6(a)`) is the `SocketAddr` itself, `Ipv4Addr` / `Ipv6Addr` are their
+      octets, `IpAddr` is the inductive `IpAddr`, `SocketAddr::new(ip, port)` sets IPv6 flow info and scope id to 0;
+      `iter().filter(p).count()` is the length of `List.filter`, `iter().flatten()` over `Option`s is `List.filterMap id`,
+      `iter_mut().take(n)` visits the first `min n len` positions; an integer `match` with `const` patterns is the `if`
+      chain of the comparisons in arm order; the initialiser of a `const` is evaluated with exact arithmetic (the
+      compiler rejects overflow there); `Box<T>` is `T`;
       `==` / `!=` on byte arrays, table-mapped types and selected structs/enums is equality of the representation
       (their `PartialEq` impls are the derived / std structural ones);
     * `std::io::Error` is the one-point type `IoError` (external types are mapped by a table in the
@@ -310,6 +316,8 @@ def from_le_bytes : List Nat → Nat
 /-- `i32::from_le_bytes(b)` (two's complement of the little-endian u32 value) -/
 def i32_from_le_bytes (b : List Nat) : Int :=
   if from_le_bytes b < 2 ^ 31 then (from_le_bytes b : Int) else (from_le_bytes b : Int) - 2 ^ 32
+/-- `x.to_le_bytes()` for `x : i32` (the little-endian bytes of the two's complement) -/
+def i32_to_le_bytes (x : Int) : List Nat := leBytes (x % (2 ^ 32 : Int)).toNat 4
 /-- `uW::from_be_bytes(b)` -/
 def from_be_bytes (b : List Nat) : Nat := from_le_bytes b.reverse
 
@@ -455,6 +463,28 @@ inductive SocketAddr where
   | v4 (ip : List Nat) (port : Nat)
   | v6 (ip : List Nat) (port : Nat) (flowinfo : Nat) (scope_id : Nat)
   deriving Repr, DecidableEq
+
+/-- `std::net::SocketAddrV4` / `SocketAddrV6`: a `SocketAddr` known to be of that variant (what the patterns
+    `SocketAddr::V4(a)` / `SocketAddr::V6(a)` bind) -/
+abbrev SocketAddrV4 := SocketAddr
+abbrev SocketAddrV6 := SocketAddr
+/-- `std::net::IpAddr` over the octets of the `Ipv4Addr` / `Ipv6Addr` (`Ipv4Addr::from([u8; 4])`, `.octets()` are the identity) -/
+inductive IpAddr where
+  | v4 (octets : List Nat)
+  | v6 (octets : List Nat)
+  deriving Repr, DecidableEq
+/-- `SocketAddr::new(ip, port)` (IPv6: flow info and scope id 0) -/
+def SocketAddr.new : IpAddr → Nat → SocketAddr
+  | .v4 o, p => .v4 o p
+  | .v6 o, p => .v6 o p 0 0
+/-- `addr.port()` -/
+def SocketAddr.port : SocketAddr → Nat
+  | .v4 _ p => p
+  | .v6 _ p _ _ => p
+/-- `a.ip().octets()` for `a : SocketAddrV4` / `SocketAddrV6` -/
+def SocketAddr.ip_octets : SocketAddr → List Nat
+  | .v4 o _ => o
+  | .v6 o _ _ _ => o
 
 /-- `octets::BufferTooShortError` -/
 inductive BufferTooShortError where
